@@ -29,6 +29,13 @@ def _p(x):
     return len(repr(x)) % 2 == 0
 
 
+def _boom(x):
+    # raises for about a third of the examples (decided by the example alone)
+    if sum(ord(c) for c in repr(x)) % 3 == 0:
+        raise O.Boom(x)
+    return ('b', x)
+
+
 def _sort_key(x):
     return repr(x)
 
@@ -58,7 +65,17 @@ def ops():
     def op_map(ds, r, rnd):
         return ds.map(_f), O.ref_map(r, _f)
 
+    def op_boom_map(ds, r, rnd):
+        return ds.map(_boom), O.ref_map(r, _boom)
+
+    def op_catch(ds, r, rnd):
+        if not r.idx:            # catch evaluates its input by index
+            return None
+        return ds.catch(O.Boom), O.ref_catch(r, {'Boom'})
+
     def op_parmap(ds, r, rnd):
+        if not _vals_ok(r):      # a raising source below a worker pool is the listed finding F19
+            return None
         w = rnd.choice((1, 2))
         return ds.map(_f, num_workers=w, buffer_size=rnd.choice((w, w + 2))), O.ref_map(r, _f)
 
@@ -112,9 +129,14 @@ def ops():
     def op_batch(ds, r, rnd):
         b = rnd.randrange(1, 4)
         drop = rnd.random() < 0.4
-        return ds.batch(b, drop_last=drop), O.ref_batch(r, b, drop)
+        rb = O.ref_batch(r, b, drop)
+        if rb.tail_exc is not None:       # a raising example in the dropped tail: iteration raises, indexing does not (not expressible in Ref)
+            return None
+        return ds.batch(b, drop_last=drop), rb
 
     def op_batch_unbatch(ds, r, rnd):
+        if not _vals_ok(r):
+            return None
         b = rnd.randrange(1, 4)
         return ds.batch(b).unbatch(), Ref(r.outs, None, False, False)
 
@@ -308,7 +330,7 @@ def search_isolation(tier='quick', seed=0, count=None):
     import numpy as np
     import lazy_dataset
     OPS = ops()
-    names = [n for n in sorted(OPS) if n not in ('snapshot',)]
+    names = [n for n in sorted(OPS) if n not in ('snapshot', 'boom_map', 'catch')]      # op set of the isolation search when it was written (kept: its seeds stay comparable)
     root = tempfile.mkdtemp(prefix='verif_fz_')
     counter = [0]
     N = count or (400 if tier == 'quick' else 4000)
